@@ -64,6 +64,7 @@ struct ItemT {
     Bytes bytes;          // raw / str / class name
     size_t lbl = 0;
     size_t slot = 0;      // pointer slot (read back after Close)
+    int mode = 0;         // KObj, how the record is read back: 0 ArchiveObject(obj), 1 ReadObject<T>(), 2 ReadObject()
     std::vector<ItemT> body;
 };
 
@@ -82,8 +83,16 @@ class VNodf : public VNode {
     MFUS_CLASS_PROTOTYPE(VNodf);
 };
 
+// what an instance created by the Archiver itself (ReadObject<T>() / ReadObject()) has to do in its Archive()
+struct Pending {
+    Run* run = nullptr;
+    const std::vector<ItemT>* script = nullptr;
+    std::vector<ItemT>* out = nullptr;
+} g_pending;
+
 struct Run {
     bool reading = false;
+    std::vector<Class*> graveyard;             // objects replaced by an instance the Archiver created
     std::map<size_t, Listener*> objs;          // label -> object of this side
     std::map<size_t, std::string> clsOf;       // label -> class name
     std::deque<Listener*> plain;               // plain pointer slots (must outlive the Archiver)
@@ -134,6 +143,7 @@ struct Run {
         vars.clear();
         safe.clear();
         for (auto& kv : objs) delete kv.second;
+        for (Class* c : graveyard) delete c;
     }
     void exec(Archiver& arc, const std::vector<ItemT>& items, std::vector<ItemT>& out);
 };
@@ -335,6 +345,40 @@ void Run::exec(Archiver& arc, const std::vector<ItemT>& items, std::vector<ItemT
             break;
         }
         case KObj: {
+            out[me].mode = it.mode;
+            if (reading && it.mode != 0) {
+                // the Archiver creates the instance: by static type (ReadObject<T>()) or from the stored class name
+                std::vector<ItemT> body;
+                g_pending.run = this;
+                g_pending.script = &it.body;
+                g_pending.out = &body;
+                const std::string want(it.bytes.begin(), it.bytes.end());
+                Class* c;
+                if (it.mode == 1) {
+                    if (want == "VNode") c = arc.ReadObject<VNode>();
+                    else if (want == "VNodf") c = arc.ReadObject<VNodf>();
+                    else c = arc.ReadObject<Listener>();
+                } else {
+                    c = arc.ReadObject();
+                }
+                g_pending = Pending();
+                Listener* l = dynamic_cast<Listener*>(c);
+                auto old = objs.find(it.lbl);
+                if (old != objs.end()) graveyard.push_back(old->second);
+                if (l) objs[it.lbl] = l; else { objs.erase(it.lbl); graveyard.push_back(c); }
+                if (it.mode == 2) {
+                    const char* cn = c->GetClassname();
+                    out[me].bytes.assign(cn, cn + std::strlen(cn));
+                }
+                if (l && !dynamic_cast<VNode*>(l)) {
+                    ItemT f;
+                    f.kind = KPrim; f.prim = U8;
+                    f.value = (l->m_NotifyList ? 1 : 0) | (l->m_WaitForList ? 2 : 0) | (l->vars ? 4 : 0) | (l->m_EndList ? 8 : 0);
+                    body.push_back(f);
+                }
+                out[me].body = std::move(body);
+                break;
+            }
             Listener* o = obj(it.lbl);
             if (VNode* n = dynamic_cast<VNode*>(o)) {
                 n->run = this;
@@ -359,6 +403,18 @@ void Run::exec(Archiver& arc, const std::vector<ItemT>& items, std::vector<ItemT
 
 void VNode::Archive(Archiver& arc)
 {
+    if (!run) {
+        // created by the Archiver: the host's script for this record
+        run = g_pending.run;
+        script = g_pending.script;
+        out = g_pending.out;
+        if (!run) return;
+        // nested records of the body set their own pending script
+        Pending saved = g_pending;
+        run->exec(arc, *script, *out);
+        g_pending = saved;
+        return;
+    }
     run->exec(arc, *script, *out);
 }
 
@@ -482,8 +538,9 @@ bool parseItem(const std::vector<std::string>& t, size_t& i, ItemT& it)
         i += 2;
         return parseValue(t, i, it.val);
     }
-    if (k == "obj") {
+    if (k == "obj" || k == "objt" || k == "objp") {
         uint64_t n;
+        it.mode = k == "obj" ? 0 : k == "objt" ? 1 : 2;
         if (i + 3 >= t.size() || !nat(t[i + 1], v) || !unhex(t[i + 2], it.bytes) || !nat(t[i + 3], n)) return false;
         it.kind = KObj;
         it.lbl = v;
@@ -515,7 +572,7 @@ void showItems(const std::vector<ItemT>& items, Run& run, std::string& s)
             break;
         }
         case KObj:
-            s += "obj " + std::to_string(it.lbl) + " " + hexOf(it.bytes) + " " + std::to_string(it.body.size());
+            s += std::string(it.mode == 0 ? "obj " : it.mode == 1 ? "objt " : "objp ") + std::to_string(it.lbl) + " " + hexOf(it.bytes) + " " + std::to_string(it.body.size());
             if (!it.body.empty()) { s += ' '; showItems(it.body, run, s); }
             break;
         }
@@ -538,12 +595,20 @@ struct Case {
 } cur;
 
 // returns "ok <items>" / "err <exception>"; `shortForm`: "ok:<fnv>" / "<exception>"
-std::string readBack(const unsigned char* data, size_t len, bool shortForm)
+std::string readBack(const unsigned char* data, size_t len, bool shortForm, bool sameCtx = false)
 {
     // an exact-size heap copy: a read past the end of the archive is an ASan report
     unsigned char* copy = static_cast<unsigned char*>(std::malloc(len ? len : 1));
     if (len) std::memcpy(copy, data, len);
     std::string res;
+    // the archive is loaded in another session: a script context (string dictionary) that has never seen the
+    // strings of the writing one; `sameCtx` reads in the writing context instead
+    std::unique_ptr<ScriptContext> fresh;
+    EventContext* const writer = &EventContext::Get();
+    if (!sameCtx) {
+        fresh.reset(new ScriptContext);
+        EventContext::Set(fresh.get());
+    }
     {
         Run run;
         run.reading = true;
@@ -579,6 +644,10 @@ std::string readBack(const unsigned char* data, size_t len, bool shortForm)
             showItems(out, run, s);
             res = shortForm ? "ok:" + std::to_string(fnv(s)) : "ok " + s;
         }
+    }
+    if (fresh) {
+        fresh.reset();
+        EventContext::Set(writer);
     }
     std::free(copy);
     return res;
@@ -691,7 +760,9 @@ int main(int argc, char** argv)
         }
         if (!cur.have) { say("bad-op"); continue; }
         uint64_t a, b;
-        if (t[0] == "t" && t.size() == 2 && nat(t[1], a) && a <= cur.bytes.size()) {
+        if (t[0] == "rsame" && t.size() == 1) {
+            say(readBack(cur.bytes.data(), cur.bytes.size(), false, true));
+        } else if (t[0] == "t" && t.size() == 2 && nat(t[1], a) && a <= cur.bytes.size()) {
             say(readBack(cur.bytes.data(), (size_t)a, false));
         } else if (t[0] == "s" && t.size() == 3 && nat(t[1], a) && nat(t[2], b) && a < cur.bytes.size() && b < 256) {
             Bytes m = cur.bytes;
